@@ -226,7 +226,11 @@ def check_missing(root, spec, name, st):
     if supp:
         # the property: a missing source is reported (its absence silently changes what rule expressions see)
         if not reported(rv['stdout'], rv['stderr'], name):
-            fails.append({'law': 'missing/supplemental-not-reported', 'detail': f'supplemental source {name} is {st}; nothing in the output names it'})
+            rp = B.up_html(B.materialize(spec, root + '_p'), os.path.join(root + '_p', 'out.html'))
+            changed = rp['rc'] == 0 and rv['rc'] == 0 and B.html_txns(rp['data']) != B.html_txns(rv['data'])
+            fails.append({'law': 'missing/supplemental-not-reported', 'strong': changed,
+                          'detail': f'supplemental source {name} is {st}; nothing in the output names it'
+                                    + ('; the classification of other sources\' transactions silently changes' if changed else '')})
         return fails, rv, None
     zero = copy.deepcopy(spec)
     del zero['sources'][i]
@@ -483,15 +487,15 @@ def main(tier):
     for spec, f in failing:
         groups.setdefault((signature(f, spec), f['law']), []).append((f.get('budget') or spec, f))
     for (sig, law), items in groups.items():
-        spec, f = min(items, key=lambda x: len(json.dumps(x[0])))
+        spec, f = min(items, key=lambda x: (not x[1].get('strong', False), len(json.dumps(x[0]))))
         chk = dict(f['check'])
         small = spec
         if law != 'harness-error':
             if chk['type'] == 'frame':
                 chk = {'type': 'frame', 'kind': chk['kind'], 'i': chk['i'], 'variant': chk['variant']}
             else:
-                def still(c, chk=chk, law=law):
-                    return any(x['law'] == law for x in recheck(chk, c))
+                def still(c, chk=chk, law=law, strong=f.get('strong', False)):
+                    return any(x['law'] == law and x.get('strong', False) == strong for x in recheck(chk, c))
                 if chk['type'] in ('compose', 'missing'):
                     small = B.shrink_budget(spec, still, max_steps=25 if tier == 'quick' else 80)
         again = recheck(chk, small) if law != 'harness-error' else [f]
